@@ -48,7 +48,7 @@ var addrRe = regexp.MustCompile(`\(0x[0-9a-f]+\)`)
 
 func Run(r *core.Run) {
 	bound := core.Pick(r, 3, -1)
-	r.Rule = fmt.Sprintf("5 scenario families, 3 threads x 1-6 calls on shared instances (names / versions forced to collide): every interleaving at synchronisation points with at most %d preemptions (-1 = all); "+
+	r.Rule = fmt.Sprintf("5 scenario families (7 scenarios), 3 threads x 1-6 calls on shared instances (names / versions forced to collide): every interleaving at synchronisation points with at most %d preemptions (-1 = all); "+
 		"per execution: deadlock, happens-before data races on instrumented accesses (package variables, fields through pointers, maps), unexpected panics, linearizability against a map specification (registries), "+
 		"results equal to the sequential run (stateless components); then a free-running pass of the same bodies under the Go race detector; states = distinct (history, outcome) observations; transitions = scheduling steps", bound)
 	r.Assumptions = []string{"instrumented copy of the working tree (vinst: sync -> scheduler shims, access events, map-order seam); the repository's own tests pass on the instrumented tree",
